@@ -191,7 +191,7 @@ fn main() {
             let tier = arg(&args, "--tier").unwrap_or_else(|| "quick".into());
             let build = arg(&args, "--build").unwrap_or_else(|| "rel".into());
             let out_path = arg(&args, "--out").unwrap_or_else(|| "/verif/target/partials/C18.json".into());
-            let cases: u64 = arg(&args, "--cases").and_then(|s| s.parse().ok()).unwrap_or(if tier == "thorough" { 5000 } else { 300 });
+            let cases: u64 = arg(&args, "--cases").and_then(|s| s.parse().ok()).unwrap_or(if tier == "thorough" { 5000 } else { 600 });
             let reps = if tier == "thorough" { 4 } else { 3 };
             let mut sb = [0u8; 32];
             let mut s = splitmix(seed ^ 0xC18);
